@@ -162,6 +162,15 @@ func c19aEdge(p netip.Prefix, rng *verifkit.Rand) netip.Addr {
 	return netip.AddrFrom4([4]byte{byte(v >> 24), byte(v >> 16), byte(v >> 8), byte(v)})
 }
 
+func c19aListed(listed []netip.Prefix, p netip.Prefix) bool {
+	for _, q := range listed {
+		if q == p {
+			return true
+		}
+	}
+	return false
+}
+
 func c19aInAny(a netip.Addr, nets []netip.Prefix) bool {
 	for _, n := range nets {
 		if kitContains(n, a) {
@@ -174,7 +183,7 @@ func c19aInAny(a netip.Addr, nets []netip.Prefix) bool {
 func TestVerif_C19Agent(t *testing.T) {
 	r := verifkit.Start(t, "C19", "agent")
 	r.Rule("real Agent per case (exit enabled or promoted on demand; 0-3 static networks incl. default routes and very short prefixes of either family, IPv6-only and IPv4-only exits probed with destinations of the other family, 0-2 domain patterns, sometimes nothing configured) x PRNG ManageRoute histories " +
-		"(add, add-again with another metric/spelling, remove, remove-absent, remove-static, list) x crafted STREAM_OPEN frames (IPv4, IPv6/IPv4-mapped, domain-typed names and IP literals) through Agent.handleStreamOpen; " +
+		"(add, add-again with another metric/spelling, remove, remove-absent, remove-static, list; ROUTE_WITHDRAW / ROUTE_ADVERTISE frames from a peer naming the agent itself or others as origin in between) x crafted STREAM_OPEN frames (IPv4, IPv6/IPv4-mapped, domain-typed names and IP literals) through Agent.handleStreamOpen; " +
 		"non-trivial = history with >=1 connected probe, >=1 refused probe and >=1 dynamic route change; distinct by (config, steps)")
 	r.Assume("hist: route management calls are sequential; conc: only ManageRoute(\"add\") calls overlap, removes and probes follow after all adds returned; 'currently present dynamic routes' = the answer of ManageRoute(\"list\") taken immediately before the probe")
 
@@ -213,6 +222,7 @@ func TestVerif_C19Agent(t *testing.T) {
 	r.Require("ipv6_literal_not_permitted", 20)
 	r.Require("rebind_probes_hostile", 15)
 	r.Require("zoned_literal_probes", 25)
+	r.Require("peer_route_frames", 40)
 }
 
 func c19aHistory(r *verifkit.R, ci int, rng *verifkit.Rand, sink *kitSink, dns *kitDNS, root string) {
@@ -696,6 +706,51 @@ func c19aHistory(r *verifkit.R, ci int, rng *verifkit.Rand, sink *kitSink, dns *
 		}
 		steps = append(steps, st)
 		wire()
+		if err != nil && action == "remove" {
+			// an error is an ordinary outcome: what counts is what list says afterwards
+			if listed, _, ok := list(); ok {
+				if _, had := model[key]; had && !c19aListed(listed, p) {
+					delete(model, key)
+					removedNow = append(removedNow, p)
+					addCount[key] = 0
+					r.Add("manage_remove_error_but_unlisted", 1)
+				}
+			}
+		}
+	}
+
+	// peerFrames: route-table frames from a peer between two management calls. ROUTE_WITHDRAW /
+	// ROUTE_ADVERTISE naming this agent itself (or somebody else) as origin for a present network
+	// go through the agent's real frame dispatch. Nothing is judged here; the history goes on and the
+	// probes keep comparing connections with (configured + what list reports).
+	peerSeq := uint64(1 << 40)
+	peerFrames := func(p netip.Prefix, self bool, withdraw bool) {
+		if !p.Addr().Is4() {
+			return
+		}
+		origin := a.ID()
+		if !self {
+			rng.Fill(origin[:])
+		}
+		peerSeq++
+		b := p.Addr().As4()
+		rt := protocol.Route{AddressFamily: protocol.AddrFamilyIPv4, PrefixLength: uint8(p.Bits()), Prefix: b[:], Metric: uint16(1 + rng.Intn(3))}
+		var fr *protocol.Frame
+		kind := "peer-withdraw"
+		if withdraw {
+			w := &protocol.RouteWithdraw{OriginAgent: origin, Sequence: peerSeq, Routes: []protocol.Route{rt}}
+			fr = &protocol.Frame{Type: protocol.FrameRouteWithdraw, Payload: w.Encode()}
+		} else {
+			kind = "peer-advertise"
+			ad := &protocol.RouteAdvertise{OriginAgent: origin, Sequence: peerSeq, Routes: []protocol.Route{rt}, Path: []identity.AgentID{origin}, SeenBy: []identity.AgentID{origin}}
+			fr = &protocol.Frame{Type: protocol.FrameRouteAdvertise, Payload: ad.Encode()}
+		}
+		if self {
+			kind += "-naming-self"
+		}
+		a.processFrame(peer, fr)
+		steps = append(steps, c19aStep{Op: kind, Net: p.String()})
+		r.Add("peer_route_frames", 1)
 	}
 
 	nsteps := rng.Range(16, 34)
@@ -708,6 +763,29 @@ func c19aHistory(r *verifkit.R, ci int, rng *verifkit.Rand, sink *kitSink, dns *
 		if rng.Chance(1, 7) {
 			if !rebind() {
 				return
+			}
+			continue
+		}
+		if rng.Chance(1, 8) { // a peer's route frames between two management calls
+			var p netip.Prefix
+			switch {
+			case len(keys) > 0 && rng.Chance(3, 4):
+				p = model[keys[rng.Intn(len(keys))]]
+			case len(static) > 0:
+				p = static[rng.Intn(len(static))]
+			default:
+				p = c19aNet(rng)
+			}
+			self := rng.Chance(2, 3)
+			peerFrames(p, self, rng.Chance(3, 4))
+			if _, dyn := model[p.String()]; dyn && rng.Bool() {
+				// the operator removes that dynamic route right afterwards; then probes aimed at it
+				manage("remove", p, 0)
+				for j := 0; j < 3; j++ {
+					if !probe(&p) {
+						return
+					}
+				}
 			}
 			continue
 		}
